@@ -1,5 +1,6 @@
 """C13 — File change detection is sound in every file-system mode (structural part)."""
-from sa.facts import AnalysisBroken, expr_str, qmatch, strip_casts, relpath, core
+import re
+from sa.facts import expr_plain, AnalysisBroken, expr_str, qmatch, strip_casts, relpath, core
 from sa import cfg
 from sa.cfg import BranchFacts
 from sa.flow import arg_nodes
@@ -207,6 +208,55 @@ def run(ctx):
         for m, f in meths.items():
             shadows = [v["n"] for d in f.nodes if d.get("k") == "decl" for v in d["vars"] if v["n"] in fields]
             r.check(not shadows, "%s::%s|no-shadowing" % (short, m), "", "local(s) %s shadow data members" % shadows, f)
+    r2 = rep.rule("R-HASH-WHOLE-FILE", "the content digest covers the whole file: the read loop ends only when fread returns 0, every block read is fed to "
+                                       "update() with exactly the byte count read, from the buffer it was read into (whose full size is offered to fread), and "
+                                       "finalize() follows the loop", floor=5)
+    h = prog.fn("FileChecksumHasher::readAndDigest")
+    loops = [n for n in h.nodes if n.get("k") in ("while", "for", "do")]
+    fr = [c for c in h.calls() if (c.get("fn") or "") == "fread"]
+    up = [c for c in h.calls() if (c.get("fn") or "").endswith("::update")]
+    ok = len(loops) == 1 and len(fr) == 1 and len(up) == 1
+    if not ok:
+        raise AnalysisBroken("readAndDigest: %d loops, %d fread, %d update" % (len(loops), len(fr), len(up)))
+    lp = loops[0]
+    body = list(lp.child("body").walk())
+    esc = [x for x in body if x.get("k") in ("break", "return", "continue", "goto")]
+    r2.check(not esc, "readAndDigest|loop-ends-only-at-eof", "", "the read loop can stop (%s at line %s) before fread reports end of file" %
+             (esc[0]["k"] if esc else "", esc[0].get("ln") if esc else ""), h, esc[0] if esc else None)
+    cnd = core(lp.child("c"))
+    okc = cnd is not None and cnd.get("k") == "bin" and cnd["op"] in (">", "!=") and core(cnd.child("r")).get("v") == 0 and any(x is fr[0] for x in cnd.child("l").walk())
+    asg = [x for x in (cnd.child("l").walk() if okc else []) if x.get("k") == "bin" and x["op"] == "=" and any(y is fr[0] for y in x.child("r").walk())]
+    r2.check(okc and len(asg) == 1, "readAndDigest|loop-condition-is-bytes-read", "", "the loop condition is not `(n = fread(...)) > 0`", h, lp)
+    fa = arg_nodes(fr[0])
+
+    def cval(n):
+        n = core(n)
+        if n is None:
+            return None
+        if n.get("k") in ("int", "sizeof") and "v" in n:
+            return n["v"]
+        if n.get("k") == "bin" and n.get("op") in ("+", "-", "*", "/"):
+            a_, b_ = cval(n.child("l")), cval(n.child("r"))
+            if a_ is None or b_ is None or (n["op"] == "/" and b_ == 0):
+                return None
+            return {"+": a_ + b_, "-": a_ - b_, "*": a_ * b_, "/": a_ // b_}[n["op"]]
+        return None
+    bt = strip_casts(fa[0]).ctype() or ""
+    mext = re.search(r"\[(\d+)\]$", bt)
+    cnt = cval(fa[2]) if len(fa) == 4 else None
+    okf = len(fa) == 4 and core(fa[1]).get("v") == 1 and mext is not None and "char" in bt and cnt is not None and 1 <= cnt <= int(mext.group(1)) and \
+        expr_plain(fa[3]) in ("file", "this->file")
+    r2.check(okf, "readAndDigest|fread-within-buffer", "", "fread is not (buffer, 1, n <= sizeof(buffer), file): %s" % expr_str(fr[0]), h, fr[0])
+    ua = arg_nodes(up[0])
+    nvar = expr_plain(asg[0].child("l")) if asg else None
+    oku = len(ua) == 2 and expr_plain(ua[0]) == expr_plain(fa[0]) and expr_plain(ua[1]) == nvar and any(x is up[0] for x in body) and \
+        not any(a.get("k") in ("if", "switch", "cond") for a in h.ancestors(up[0]) if any(y is a for y in body))
+    r2.check(oku, "readAndDigest|every-block-digested", "", "update() is not called unconditionally with (buffer, bytes read): %s" % expr_str(up[0]), h, up[0])
+    fin = [c for c in h.calls() if (c.get("fn") or "").endswith("::finalize")]
+    okz = len(fin) == 1 and cfg.dominated_by(h, cfg.pos_of(h, fin[0]), lambda p, e: cfg.elem_node(h, e) is fr[0])[0]
+    r2.check(okz, "readAndDigest|finalize-after-loop", "", "finalize() does not follow the read loop", h)
+    # the buffer is not re-declared smaller than what sizeof reports: sizeof(buffer) names the same array (checked textually above)
+
     # digest path: missing -> zero, directory -> marker, file -> digest of the contents
     f = prog.fn("llbuild::basic::FileChecksum::getChecksumForPath")
     ok = bool(f.calls("readAndDigest")) and bool(f.calls("copy")) and bool(f.calls("FileInfo::isMissing")) and bool(f.calls("FileInfo::isDirectory"))
@@ -214,6 +264,11 @@ def run(ctx):
 
 
 VARIANTS = [
+    dict(name="hash-stops-after-first-block", file="include/llbuild/Basic/FileInfo.h", old="        update(buffer, bytesRead);\n      }", new="        update(buffer, bytesRead);\n        if (bytesRead <= sizeof(buffer))\n          break;\n      }",
+         expect=("R-HASH-WHOLE-FILE", "loop-ends-only-at-eof")),
+    dict(name="hash-update-with-buffer-size", file="include/llbuild/Basic/FileInfo.h", old="        update(buffer, bytesRead);", new="        update(buffer, sizeof(buffer));", expect=("R-HASH-WHOLE-FILE", "every-block-digested")),
+    dict(name="hash-reads-half-buffer", file="include/llbuild/Basic/FileInfo.h", old="fread(buffer, 1, sizeof(buffer), file)", new="fread(buffer, 1, sizeof(buffer) / 2, file)", expect=None),
+    dict(name="hash-skips-short-blocks", file="include/llbuild/Basic/FileInfo.h", old="        update(buffer, bytesRead);", new="        if (bytesRead == sizeof(buffer)) update(buffer, bytesRead);", expect=("R-HASH-WHOLE-FILE", "every-block-digested")),
     dict(name="md5-local-shadows-member", file="include/llbuild/Basic/FileInfo.h",
          old="  void finalize() override {\n    hasher.final(output);\n  }", new="  void finalize() override {\n    llvm::MD5::MD5Result output;\n    hasher.final(output);\n  }",
          expect=("R-HASHER-DEFUSE", "FileChecksumHasherMD5")),
